@@ -63,6 +63,16 @@ class UserAddEdge(ActionGroup):
                 )
             else:
                 merge_edge = list(self.tracks.graph.in_edges(target))[0]
+                # validate the division check before anything is removed, so that a
+                # refused edit leaves the tracks untouched
+                remaining_out_degree = self.tracks.graph.out_degree(source) - (
+                    1 if merge_edge[0] == source else 0
+                )
+                if remaining_out_degree > 1:
+                    raise InvalidActionError(
+                        "Expected degree of 0 or 1 before adding edge, got "
+                        f"{remaining_out_degree}"
+                    )
                 warnings.warn(
                     f"Removing edge {merge_edge} to add new edge without merging.",
                     stacklevel=2,
